@@ -83,11 +83,14 @@ inline void run_algebra(const json& sc) {
 inline void run_nsz(const json& sc) {
     int M = sc.at("M").get<int>();
     json r = {{"e", "NSz"}, {"id", sc.value("id", json())}, {"M", M}, {"up", sc["up"]}};
+    if (sc.count("down")) r["down"] = sc["down"];      // the two-list constructor: S_z of a sub-cluster (modes outside both lists are spectators)
     std::string ex = classify_exception([&] {
         OperatorPresets::N Nop(M);
         std::vector<ParticleIndex> up;
         for (auto& x : sc["up"]) up.push_back(x.get<int>());
-        OperatorPresets::Sz Sop(M, up);
+        std::vector<ParticleIndex> down;
+        if (sc.count("down")) for (auto& x : sc["down"]) down.push_back(x.get<int>());
+        OperatorPresets::Sz Sop = sc.count("down") ? OperatorPresets::Sz(up, down) : OperatorPresets::Sz(M, up);
         Operator Ngen(Nop), Sgen(Sop);       // sliced copies: the generic polynomial forms
         unsigned long NS = 1ul << M;
         json rows = json::array();
